@@ -296,8 +296,8 @@ def intersect_masks(m1, m2):
         joint_mask = ma.mask_or(ma.getmask(m1), ma.getmask(m2))
 
         import dadi
-        m1 = dadi.Spectrum(m1, mask=joint_mask.copy())
-        m2 = dadi.Spectrum(m2, mask=joint_mask.copy())
+        m1 = dadi.Spectrum(m1, mask=joint_mask.copy(), mask_corners=False)
+        m2 = dadi.Spectrum(m2, mask=joint_mask.copy(), mask_corners=False)
     return m1,m2
 
 def trapz(yy, xx=None, dx=None, axis=-1):
